@@ -582,6 +582,7 @@ def run(ctx):
     info = {}
     variant_counts = {}
     feats = {}
+    scale_of = {}
     counters = {"pbvi_runs": 0, "qmdp_runs": 0, "mirror_runs": 0, "mirror_skipped_budget": 0,
                 "fullobs_cases": 0, "fullobs_closed_sets": 0, "belief_checks": 0, "beliefset_point_checks": 0,
                 "horizon_none": 0, "absorbing_cases": 0, "neg_reward_cases": 0, "multi_call_runs": 0}
@@ -716,6 +717,7 @@ def run(ctx):
                                         "clause": "QMDP's action value at this belief raises / is not finite, but sum_s b(s) Q(s,a) of its own table is the finite number listed: QMDP's action values are not the belief-weighted optimal action values of the underlying MDP"}, found=True)
                     break
             qtol = F(1, 10**8) * scale
+            scale_of[i] = scale
             terms.append("q_rep %s %s %s %s %s %s %s %s" % (
                 pt, q(qtol), q(tol + qtol * 2), q(ptol), nat(k), qlist(Vs), qmat(qr["Q"]),
                 entries(beliefs, qr["queries"])))
@@ -897,11 +899,19 @@ def run(ctx):
                 # exact optimal table has two DIFFERENT action values of one state inside np.isclose's default band
                 neartie = any(0 < abs(Qs[s2][a] - Qs[s2][b2]) <= F(1, 10**8) + F(1, 10**5) * max(abs(Qs[s2][a]), abs(Qs[s2][b2]))
                               for s2 in range(pc["n"]) for a in range(pc["nA"]) for b2 in range(a))
+                # ... and the deviation is what merging those actions can produce, nothing more: only
+                # UNDER-estimates, by at most 2*G/(1-gamma) (G = largest such gap) beyond the table tolerance
+                gaps = [abs(Qs[s2][a] - Qs[s2][b2]) for s2 in range(pc["n"]) for a in range(pc["nA"]) for b2 in range(a)
+                        if 0 < abs(Qs[s2][a] - Qs[s2][b2]) <= F(1, 10**8) + F(1, 10**5) * max(abs(Qs[s2][a]), abs(Qs[s2][b2]))]
+                qtol_ = F(1, 10**8) * scale_of[i]
+                explained = neartie and all(
+                    -(2 * max(gaps) / (1 - F(pc["gamma"])) + qtol_) <= fr(qr["Q"][s2][a]) - Qs[s2][a] <= qtol_
+                    for s2 in range(pc["n"]) for a in range(pc["nA"]))
                 suffix = ":discount-within-1e-5-of-1" if near1 else \
-                    ":optimal-action-values-differ-by-less-than-isclose-band" if (neartie and name == "pi") else ""
+                    ":optimal-action-values-differ-by-less-than-isclose-band" if (explained and name == "pi") else ""
                 ctx.violation("C08:qmdp-%s:table-is-not-the-optimal-action-values%s" % (name, suffix),
                               dict(base, Q=qr["Q"], Q_exact=[[str(x) for x in r] for r in Qs], worst=str(worst), solver=name,
-                                   signature_class_rule="suffix ':optimal-action-values-differ-by-less-than-isclose-band' is appended (solver pi only, gamma < 1-1e-5) iff the EXACT optimal table has, in some state, two different action values with |Q(s,a)-Q(s,b)| <= 1e-8 + 1e-5*max|Q| (np.isclose's default band, which policy iteration's tie test uses); suffix ':discount-within-1e-5-of-1' is appended iff the case's discount rate gamma >= 1 - 1e-5 (here gamma = %s): the solver's tie test (np.isclose, rtol 1e-5 relative to |Q| ~ 1/(1-gamma)) cannot separate actions there; for every smaller discount the plain signature is used and is NOT covered by the known finding" % pc["gamma"]),
+                                   signature_class_rule="suffix ':optimal-action-values-differ-by-less-than-isclose-band' is appended (solver pi only, gamma < 1-1e-5) iff the EXACT optimal table has, in some state, two different action values with |Q(s,a)-Q(s,b)| <= 1e-8 + 1e-5*max|Q| (np.isclose's default band, which policy iteration's tie test uses) AND every entry of the returned table lies in [Q* - 2G/(1-gamma) - qtol, Q* + qtol] with G the largest such gap (i.e. the deviation is an under-estimate no larger than merging those actions can cause); any other deviation keeps the plain signature; suffix ':discount-within-1e-5-of-1' is appended iff the case's discount rate gamma >= 1 - 1e-5 (here gamma = %s): the solver's tie test (np.isclose, rtol 1e-5 relative to |Q| ~ 1/(1-gamma)) cannot separate actions there; for every smaller discount the plain signature is used and is NOT covered by the known finding" % pc["gamma"]),
                               found=bool(worst > tol * 100) or bool(suffix.startswith(":optimal")))
             fullobs = bool(case.get("fullobs"))
             for e, bi in zip(per_b, info[i]["q_idx:" + name]):
